@@ -562,6 +562,28 @@ func TestVerifC02(t *testing.T) {
 			w.offer(out, c02Offer{kind: "genuine", ph: reg.ph, tr: reg.tr, data: f, owner: reg, genuine: true, pid: reg.prefixID})
 		}
 	}
+	// corpus: a registration that carried a connection, replayed after its 6 h lifetime; an unused one
+	// replayed after 10 min; a used one replayed inside its lifetime (still accepted)
+	{
+		w := newC02World()
+		w.apply('r', 0, 0, pb.TransportType_Min, 0, 0, 0)
+		w.apply('r', 0, 1, pb.TransportType_Prefix, 4, 0, 0)
+		w.apply('r', 1, 2, pb.TransportType_Obfs4, 0, 0, 0)
+		w.apply('r', 1, 0, pb.TransportType_Min, 0, 0, 0)
+		for _, reg := range w.regs[:3] {
+			w.apply('m', reg.ph, reg.sec, reg.tr, reg.prefixID, 0, 60)
+		}
+		replay := func() {
+			for _, reg := range w.regs {
+				f := w.flight(reg.sec, reg.tr, reg.prefixID, 0)
+				w.offer(out, c02Offer{kind: "replay-after-sweep", ph: reg.ph, tr: reg.tr, data: f, owner: reg, genuine: true, pid: reg.prefixID})
+			}
+		}
+		w.apply('s', 0, 0, 0, 0, 0, 3630) // 1 h: the unused one is gone, the used ones stay
+		replay()
+		w.apply('s', 0, 0, 0, 0, 0, 25230) // 7 h: everything is gone
+		replay()
+	}
 	worlds := vlib.Budget(150, 3000)
 	for i := 0; i < worlds; i++ {
 		c02RunWorld(out, r, 40)
